@@ -121,6 +121,7 @@ type xferDir struct {
 	readPause int           // pause after this many reads (0 = never)
 	pauseFor  time.Duration // length of the pause
 	setRecvParams bool      // receiver mirrors the reliability params on its stream object
+	recvUnordered int       // directed scenarios: 1 = receiver configures its stream object unordered, 2 = ordered
 
 	tx         *simStream
 	rx         *simStream
@@ -133,6 +134,7 @@ func (d *xferDir) reliable() bool { return d.relType == ReliabilityTypeReliable 
 type xfer struct {
 	w     *world
 	dirs  []*xferDir
+	tails []*xferDir
 	index map[uint32]*msgRec
 	// end-of-run bookkeeping
 	healAt    time.Duration
@@ -289,6 +291,9 @@ func (x *xfer) gotStream(ep *endpoint, sid uint16, s *Stream) *simStream {
 		d.rx = st
 		if d.setRecvParams {
 			s.SetReliabilityParams(d.unordered, d.relType, d.relVal)
+		}
+		if d.recvUnordered != 0 {
+			s.SetReliabilityParams(d.recvUnordered == 1, ReliabilityTypeReliable, 0)
 		}
 	}
 	w.sim.spawnClient(fmt.Sprintf("reader.%s.%d", ep.name, sid), ep.name, func() {
@@ -464,6 +469,34 @@ func genDirs(w *world, o xferOpts) []*xferDir {
 			dirs = append(dirs, d)
 		}
 	}
+	// Trigger regions of recorded known findings are excluded from the random search
+	// (DESIGN §6.4); the witness replays re-enable them through scenario parameters.
+	//   kf_recv_unordered: the receiving Stream object is configured with a different
+	//                      ordering than the inbound direction uses (pion keys its
+	//                      FORWARD-TSN handling on the receiver's own setting)
+	//   kf_fwd_unknown:    a FORWARD-TSN can reach a stream the receiver has not created yet
+	bySid := map[uint16][]*xferDir{}
+	for _, d := range dirs {
+		bySid[d.sid] = append(bySid[d.sid], d)
+	}
+	for _, d := range dirs {
+		pair := bySid[d.sid]
+		if w.params["kf_recv_unordered"] == 0 {
+			if len(pair) == 2 {
+				d.unordered = pair[0].unordered
+				d.setRecvParams = false
+			} else {
+				d.setRecvParams = true
+			}
+		}
+		if len(pair) == 2 {
+			// mirroring would overwrite the reliability policy of the opposite direction
+			d.setRecvParams = false
+		}
+		if w.params["kf_fwd_unknown"] == 0 && !d.reliable() {
+			d.preopen = true
+		}
+	}
 	sort.SliceStable(dirs, func(i, j int) bool {
 		if dirs[i].sid != dirs[j].sid {
 			return dirs[i].sid < dirs[j].sid
@@ -491,4 +524,8 @@ func rtoMaxOf(c sideCfg) time.Duration {
 		return 60 * time.Second
 	}
 	return time.Duration(c.RTOMax * float64(time.Millisecond))
+}
+
+func fmtHeld(sid uint16, n, o, u, uc, om, um int) string {
+	return fmt.Sprintf("[sid=%d bytes=%d ordered=%d unordered=%d loose=%d orderedMID=%d unorderedMID=%d]", sid, n, o, u, uc, om, um)
 }
